@@ -1,5 +1,6 @@
 import GambitV.Model.Fasta
 import Driver.Proto
+import Driver.PyGenCmp
 namespace Driver.C06
 open GambitV Driver
 
@@ -15,7 +16,11 @@ def handle : List String → Option String
   | ["c06.same", a, b] => pure (expect a b)
   | ["c06.gz", head, real] => do
     let head ← parseHex head
-    pure (expect (boolOf (guessGzip head)) real)
+    let r := expect (boolOf (guessGzip head)) real
+    if r != "ok" then pure r else
+    -- the definition generated from the current source of guess_compression against the real answer
+    pure ((PyGen.cmp "guess_compression" Gen.guess_compression.untranslatable
+      (PyGen.resStr (fun (t : List Char) => boolOf (t == "gzip".toList)) (Gen.guess_compression head ())) real).getD "ok")
   | _ => none
 
 end Driver.C06
